@@ -3,6 +3,7 @@ package props
 
 import (
 	_ "verif/mc/props/c02"
+	_ "verif/mc/props/c03"
 	_ "verif/mc/props/c10"
 	_ "verif/mc/props/c14"
 	_ "verif/mc/props/c15"
